@@ -37,6 +37,14 @@ theorem C18_frame_truncated (lim : Nat) (rs : List Rec) (r : Rec) (p q : Bytes)
   have hinc := readRecord_prefix lim r hr p q hcut hp hq
   exact decodeFuel_tail lim rs hw p .incomplete (fun f => by simp [decodeFuel, hinc]) _ (by simp [encodeStream])
 
+/-- Chunk boundaries cannot matter: once a record can be read from the bytes received so far, exactly
+    the same record is read from any extension of them and exactly the extension is added to what is
+    left — a reader that waits while a read is incomplete returns the same records however the
+    transport cuts the stream. -/
+theorem C18_frame_prefix_stable (lim : Nat) (bs x rest : Bytes) (r : Rec)
+    (h : readRecord lim bs = .ok r rest) : readRecord lim (bs ++ x) = .ok r (rest ++ x) :=
+  readRecord_mono lim x h
+
 /-- non-vacuity: a payload that looks like a header and contains newlines, an empty payload and a
     plain one, back to back, with ids `7`, `x/1`, `140230` -/
 example :
@@ -114,11 +122,13 @@ theorem C18_stream_order (c : Cfg) (s : State) (hr : Reachable c s) :
 
 /-- Progress: as long as some request has no result, some transport action (a client sender or
     receiver, the server's receiver or responder, or a handler completion) is enabled — no state in
-    which a request is stuck, whatever the completion order so far (needs one connection). -/
-theorem C18_mux_progress (c : Cfg) (s : State) (hr : Reachable c s) (hn : 0 < c.nconn) (k : Nat) (r : Req)
+    which a request is stuck, whatever the completion order so far and **whatever the sizes of the
+    bounded buffers** (`Cfg.Live`: at least one connection, every capacity ≥ 1): flow control
+    (`drain`, the server's `backlog`) cannot wedge the transport. -/
+theorem C18_mux_progress (c : Cfg) (s : State) (hr : Reachable c s) (hcap : c.Live) (k : Nat) (r : Req)
     (hk : s.reqs[k]? = some r) (hu : ∀ v, (k, v) ∉ s.results) :
     ∃ a, a.transport = true ∧ (step c s a).isSome = true :=
-  progress c s (all_reachable2 c hr) hn k r hk hu
+  progress c s (all_reachable2 c hr) hcap.1 hcap.2.1 hcap.2.2.1 hcap.2.2.2 k r hk hu
 
 /-- Bounded work: from any state, an execution without new requests has at most `measure s` steps
     (5 per pending request, 4/3/2/1 per request on the wire / running / done / answered, 1 per
@@ -130,7 +140,7 @@ theorem C18_mux_terminates (c : Cfg) (s s' : State) (as : List Act) (hint : ∀ 
 
 /-- When the transport has come to rest, **every** request that was made holds the handler's
     response to its own payload: nothing is lost, nothing is crossed. -/
-theorem C18_mux_all_answered (c : Cfg) (s : State) (hr : Reachable c s) (hn : 0 < c.nconn)
+theorem C18_mux_all_answered (c : Cfg) (s : State) (hr : Reachable c s) (hn : c.Live)
     (hrest : ∀ a, a.transport = true → step c s a = none) :
     ∀ k r, s.reqs[k]? = some r → (k, c.handler r.data) ∈ s.results := by
   intro k r hk
@@ -146,7 +156,7 @@ theorem C18_mux_all_answered (c : Cfg) (s : State) (hr : Reachable c s) (hn : 0 
 
 /-- When everything has come to rest (the stream consumer included), the stream has yielded every
     input, in order, each with its own response. -/
-theorem C18_stream_complete (c : Cfg) (s : State) (hr : Reachable c s) (hn : 0 < c.nconn)
+theorem C18_stream_complete (c : Cfg) (s : State) (hr : Reachable c s) (hn : c.Live)
     (hrest : ∀ a, a.internal = true → step c s a = none) :
     s.sout = s.sin.map (fun x => (x, c.handler x)) := by
   have hi := all_reachable c hr
@@ -172,15 +182,20 @@ theorem C18_stream_complete (c : Cfg) (s : State) (hr : Reachable c s) (hn : 0 <
 
 /-- non-vacuity: two connections, four requests (one through `stream`), the handlers complete out
     of order (request 2 before request 0, request 1 answered first), id `100` is reused after its
-    first owner was resolved; every future holds its own response. -/
+    first owner was resolved; every future holds its own response.  Small buffer capacities. -/
 example :
-    let c : Cfg := { nconn := 2, handler := fun x => if x % 2 = 0 then .ok (x * 10) else .err x }
+    let c : Cfg := { nconn := 2, handler := fun x => if x % 2 = 0 then .ok (x * 10) else .err x,
+                     pendCap := 3, wireCap := 2, srvCap := 2, backCap := 1 }
     (Core.run (step c) (init c)
       [.submit 5 100, .submit 6 200, .ssubmit 7 300, .send 0, .send 1, .send 0, .srvRecv 0, .srvRecv 0,
-       .srvRecv 1, .finish 0 1, .finish 1 0, .respond 1, .recv 1, .finish 0 0, .respond 0, .respond 0,
-       .recv 0, .recv 0, .syield, .submit 8 100, .send 1, .srvRecv 1, .finish 1 0, .respond 1, .recv 1]).map
+       .srvRecv 1, .finish 0 1, .finish 1 0, .respond 1, .recv 1, .finish 0 0, .respond 0, .recv 0,
+       .respond 0, .recv 0, .syield, .submit 8 100, .send 1, .srvRecv 1, .finish 1 0, .respond 1, .recv 1]).map
       (fun s => (s.results, s.sout, s.active, s.reqs.map (·.id)))
-    = some ([(1, .ok 60), (0, .err 5), (2, .err 7), (3, .ok 80)], [(7, .err 7)], [], [100, 200, 300, 100]) := by
+    = some ([(1, .ok 60), (0, .err 5), (2, .err 7), (3, .ok 80)], [(7, .err 7)], [], [100, 200, 300, 100])
+    -- the bounded buffers bite: with room for one record on the way back, a second response must wait
+    ∧ Core.run (step c) (init c)
+      [.submit 5 100, .submit 6 200, .send 0, .send 0, .srvRecv 0, .srvRecv 0, .finish 0 0, .finish 0 1,
+       .respond 0, .respond 0] = none := by
   decide
 
 end Mux
